@@ -1,6 +1,8 @@
 package main
 
 import (
+	"go/types"
+
 	"golang.org/x/tools/go/ssa"
 )
 
@@ -34,12 +36,23 @@ func init() {
 	pureExterns["strings.LastIndex"] = func(x *Exec, f *frame, m int, a []Val, in ssa.Value) (Val, bool) {
 		s, p := a[0].T, a[1].T
 		x.X.declare("strlastindex", `(declare-fun strlastindex (Str Str) Int)
-(assert (forall ((s Str) (p Str)) (! (=> (= (slen p) 1) (let ((r (strlastindex s p)) (c (select (sdata p) 0)))
+(assert (forall ((s Str) (p Str)) (! (=> (and (= (slen p) 1) (>= (slen s) 0)) (let ((r (strlastindex s p)) (c (select (sdata p) 0)))
   (and (<= (- 1) r) (< r (slen s))
        (=> (>= r 0) (= (select (sdata s) r) c))
        (forall ((j Int)) (! (=> (and (< r j) (< j (slen s))) (not (= (select (sdata s) j) c))) :pattern ((select (sdata s) j))))))) :pattern ((strlastindex s p)))))`)
 		x.assumed["extern strings.LastIndex: axiomatised for one-byte patterns (last index holding the byte, or -1 if none); longer patterns uninterpreted"] = true
 		return Val{T: sx("strlastindex", s, p)}, true
+	}
+	// credentials.RequestInfoFromContext(ctx): a pure lookup in the context (same ctx, same result)
+	pureExterns["google.golang.org/grpc/credentials.RequestInfoFromContext"] = func(x *Exec, f *frame, m int, a []Val, in ssa.Value) (Val, bool) {
+		tu, ok := in.Type().(*types.Tuple)
+		if !ok || tu.Len() != 2 {
+			return Val{}, false
+		}
+		srt := x.X.sortOf(tu.At(0).Type())
+		x.X.declare("rifc", "(declare-fun rifc (Int) "+srt+")\n(declare-fun rifc_ok (Int) Bool)")
+		x.assumed["extern credentials.RequestInfoFromContext: pure function of the context value"] = true
+		return Val{Tu: []Val{{T: sx("rifc", a[0].T)}, {T: sx("rifc_ok", a[0].T)}}}, true
 	}
 	pureExterns["strings.EqualFold"] =func(x *Exec, f *frame, m int, a []Val, in ssa.Value) (Val, bool) {
 		x.useLower()
